@@ -119,6 +119,16 @@ fn gen_tile(rng: &mut Rng, id_key: Option<&str>) -> GTile {
 	(0..n).map(|i| gen_layer(rng, names[(start + i) % 4], id_key)).collect()
 }
 
+/// one layer whose key table has 130 and whose value table has 16 400 entries; features point at the entries around 127/128 and 16383/16384
+fn gen_big_tables_tile(rng: &mut Rng) -> GTile {
+	let keys: Vec<String> = (0..130).map(|k| format!("k{k}")).collect();
+	let vals: Vec<GVal> = (0..16_400u64).map(|v| if v % 3 == 0 { GVal::UInt(v) } else if v % 3 == 1 { GVal::Str(format!("v{v}")) } else { GVal::SInt(-(v as i64)) }).collect();
+	let borders = [0u32, 1, 126, 127, 128, 129, 16_382, 16_383, 16_384, 16_385, 16_399];
+	let feats = (0..borders.len()).map(|j| { let mut tags = vec![borders[j].min(129), borders[(j + 3) % borders.len()], (j as u32 * 11) % 130, borders[j]]; if rng.chance(1, 2) { tags.extend_from_slice(&[127, 16_384]); }
+		GFeat { id: Some(j as u64), tags, gtype: 1, geom: vec![9, 2, 2] } }).collect();
+	vec![GLayer { name: "big".into(), extent: 4096, version: 2, keys, vals, feats, tables_first: rng.chance(1, 2) }, gen_layer(rng, "roads", None)]
+}
+
 fn impl_decode(b: &[u8]) -> Result<VectorTile, String> { match guarded(|| VectorTile::from_blob(&Blob::from(b.to_vec()))) { Ok(Ok(t)) => Ok(t), Ok(Err(_)) => Err("err".into()), Err(_) => Err("panic".into()) } }
 
 pub fn run(ctx: &Ctx, focus: &str) -> Result<()> {
@@ -143,7 +153,8 @@ pub fn run(ctx: &Ctx, focus: &str) -> Result<()> {
 
 	// (1) independently encoded tiles: decode, re-encode, compare content (C11 identity, C16-style acceptance)
 	for i in 0..n {
-		let t = gen_tile(&mut rng, None);
+		// now and then a layer with large tables: tag ids on both sides of the 1-, 2- and 3-byte varint borders
+		let t = if i % 97 == 13 { gen_big_tables_tile(&mut rng) } else { gen_tile(&mut rng, None) };
 		let bytes = enc_tile(&t);
 		let exp = dump_expected(&t, false);
 		col.spec_cases += 1;
@@ -151,12 +162,14 @@ pub fn run(ctx: &Ctx, focus: &str) -> Result<()> {
 		match impl_decode(&bytes) {
 			Ok(dec) => {
 				let got = dump_tile(&dec, false);
-				col.out.line(&format!("mvt.dec {} => {}", hx(&bytes), if got.is_empty() { "-".to_string() } else { got.clone() }));
+				// (tiles with 16 000 table entries are compared with the expectation only: the model's list-based tables are quadratic)
+				let model_lines = bytes.len() < 20_000;
+				if model_lines { col.out.line(&format!("mvt.dec {} => {}", hx(&bytes), if got.is_empty() { "-".to_string() } else { got.clone() })); }
 				if got != exp { col.violation("decode-content", &desc, &desc, &format!("encoded {exp} decoded as {got}")); }
 				match guarded(|| dec.to_blob()) {
 					Ok(Ok(b2)) => match impl_decode(b2.as_slice()) {
 						Ok(d2) => { let g2 = dump_tile(&d2, false);
-							col.out.line(&format!("mvt.rt {} => {}", hx(&bytes), if g2.is_empty() { "-".to_string() } else { g2.clone() }));
+							if model_lines { col.out.line(&format!("mvt.rt {} => {}", hx(&bytes), if g2.is_empty() { "-".to_string() } else { g2.clone() })); }
 							if g2 != exp { col.violation("reencode-content", &format!("mvt.rt {}", hx(&bytes)), &format!("mvt.rt {}", hx(&bytes)), &format!("content {exp} became {g2} after decode+encode")); } }
 						Err(e) => col.violation("reencode-undecodable", &desc, &desc, &e),
 					},
@@ -172,7 +185,7 @@ pub fn run(ctx: &Ctx, focus: &str) -> Result<()> {
 			// length fields that announce gigabytes are the C19 check's business (allocation); skip them here
 			let r = impl_decode(&m);
 			let txt = match &r { Ok(d) => { let g = dump_tile(d, false); if g.is_empty() { "-".to_string() } else { g } } Err(e) => e.clone() };
-			col.out.line(&format!("mvt.dec {} => {}", hx(&m), txt));
+			if m.len() < 20_000 { col.out.line(&format!("mvt.dec {} => {}", hx(&m), txt)); }
 			if matches!(&r, Err(e) if e == "panic") { col.violation("decode-panic", &format!("mvt.dec {}", hx(&m)), &format!("mvt.dec {}", hx(&m)), "VectorTile::from_blob panicked"); }
 		}
 	}
